@@ -85,6 +85,11 @@ CHECKS = {
    technique="TLA+ statement of the documented JSON schema and of the cross-field consistency rules (Trace_Report.tla, hex strings parsed and subtracted on limbs) evaluated by TLC on every report recorded from the real print_json; lexical validity by from_utf8 + serde_json",
    text="No state space: the specification is a library of predicates (Schema, HexW, Counts, Offsets, CrashingThreadCopy, ModulesMirror) that TLC evaluates on the projected JSON of every report the corpus and the Processor.tla cases produce, with the library's own module list passed alongside for the mirror check.",
    note="Trusted: TLC, Trace_Report.tla (transcription of json-schema.md), the JSON projection in record_process.rs, serde_json for lexical validity. Sampled inputs; function_offset is only bounded by module_offset."),
+ "C01": dict(
+   level="exploration", design_ref="DESIGN.md section 5 'C01'",
+   technique="TLA+ model of the reader's validation protocol (DumpReader.tla: 8 protocol classes, adversarial count/size/offset fields, allocation and work accounting; one mutant per guard) model-checked by TLC; every terminal state instantiated as bytes in rich template dumps and driven through the whole reading and printing surface under a bounding allocator, panic capture and a watchdog; the statement's monitor (Trace_DumpReader.tla) evaluated by TLC on those runs and on boundary-value sweeps, truncations, hostile text streams and random files",
+   text="TLC proves AllocBacked, WorkBounded and NoPanic for the protocol with every guard and shows that dropping any one guard breaks an invariant. Each terminal state becomes a set of field substitutions in valid dumps that contain all 24 stream types and 9 CPU context layouts in both byte orders (frozen writer); worker processes run Minidump::read, get_stream for all 24 types, every accessor and every print routine. TLC then evaluates Total (Ok or Err: no panic, abort or hang) and AllocBound (8 MiB + 256 L + L^2) on the recorded outcomes; the model's predicted stream result is compared as drift.",
+   note="Trusted: TLC, DumpReader.tla / Trace_DumpReader.tla, the frozen writer and rich.rs templates, reader.rs (the surface driver), the counting allocator. The quantifier is over all byte strings: the cases are structured families, so this is exploration, not proof."),
  "C16": dict(
    level="model_checking", design_ref="DESIGN.md section 5 'C16'",
    technique="TLA+ model of the download-and-cache protocol (HttpCache.tla: one action per await point and file-system effect, per-URL fault scripts, drop points, pre-existing entries, unusable directories, sym and file kinds) model-checked by TLC for one client and for two clients racing on one cache path; every terminal behaviour replayed on the real HttpSymbolSupplier against scripted raw-TCP loopback servers, with cache/ and tmp/ read back byte for byte and an offline repeat of the lookup",
